@@ -475,3 +475,25 @@ def op_int(o):
 def load_crate(path):
     with open(path) as fh:
         return Crate(json.load(fh))
+
+
+# ---------------------------------------------------------------- integer widening through From/Into
+_INT_BITS = {"u8": 8, "u16": 16, "u32": 32, "u64": 64, "u128": 128, "usize": 64,
+             "i8": 8, "i16": 16, "i32": 32, "i64": 64, "i128": 128, "isize": 64}
+
+
+def widening_conversion(term):
+    """If the call terminator is `<T as From<U>>::from(x)` / `<U as Into<T>>::into(x)` between primitive
+    integer types (std only implements these when the conversion is lossless), return (T, U) as type
+    strings - the call is then equivalent to `x as T`.  Otherwise None."""
+    n = callee(term)
+    a = [ty_str(x) for x in (term.get("f") or {}).get("a", [])]
+    if n == "core::convert::From::from" and len(a) >= 2:
+        to, frm = a[0], a[1]
+    elif n == "core::convert::Into::into" and len(a) >= 2:
+        frm, to = a[0], a[1]
+    else:
+        return None
+    if to in _INT_BITS and frm in _INT_BITS and len(term.get("args", [])) == 1:
+        return to, frm
+    return None
